@@ -18,14 +18,81 @@ Import ListNotations.
 
 Ltac Zify.zify_post_hook ::= Z.div_mod_to_equations.
 
-Section PoolFacts.
-  Context {F : Type} {K : Ops F} {L : Laws K}.
-  Variable solver : nat -> list (row F) -> list F.
-  Hypothesis solver_len : forall n sys, length (solver n sys) = n.
+(* ---- generic facts about outcomes (no scalar structure involved) ---- *)
 
-  (* ================================================================== *)
-  (* Specification vocabulary                                            *)
-  (* ================================================================== *)
+(* library exceptions, as opposed to the two standard-library ones that
+   signal an internal error of the library *)
+Definition lib_err (e : err) : Prop :=
+  match e with BadOptionalAccess | StdOutOfRange => False | _ => True end.
+
+(* [m] is not undefined behaviour and not an internal error; a returned value
+   satisfies [P] *)
+Definition okP {A} (P : A -> Prop) (m : outcome A) : Prop :=
+  match m with Ok a => P a | Throw e => lib_err e | UB _ => False end.
+
+Notation safe m := (okP (fun _ => True) m).
+
+Lemma okP_ok {A} (P : A -> Prop) m a : okP P m -> m = Ok a -> P a.
+Proof. intros H ->. exact H. Qed.
+
+Lemma okP_bind {A B} (P : A -> Prop) (Q : B -> Prop) (m : outcome A) (f : A -> outcome B) :
+  okP P m -> (forall a, m = Ok a -> P a -> okP Q (f a)) -> okP Q (bind m f).
+Proof. destruct m as [a|e|k]; cbn [okP bind]; intros H Hf; [apply Hf; auto | exact H | exact H]. Qed.
+
+Lemma okP_impl {A} (P Q : A -> Prop) m : okP P m -> (forall a, m = Ok a -> P a -> Q a) -> okP Q m.
+Proof. destruct m as [a|e|k]; cbn [okP]; intros H Hf; [apply Hf; auto | exact H | exact H]. Qed.
+
+Lemma okP_of_ex {A} (P : A -> Prop) m : (exists a, m = Ok a /\ P a) -> okP P m.
+Proof. intros (a & -> & H). exact H. Qed.
+
+Lemma omapM_okP {A B} (f : A -> outcome B) (P : B -> Prop) l :
+  (forall a, In a l -> okP P (f a)) ->
+  okP (fun r => length r = length l /\ Forall P r) (omapM f l).
+Proof.
+  induction l as [|a l IH]; intros H.
+  - cbn. split; [reflexivity | constructor].
+  - rewrite omapM_cons. apply (okP_bind P); [apply H; left; reflexivity|].
+    intros b _ Hb. apply (okP_bind (fun r => length r = length l /\ Forall P r)).
+    + apply IH. intros a' Ha'. apply H. right. exact Ha'.
+    + intros bs _ [Hl Hbs]. cbn [okP length]. split; [congruence | constructor; assumption].
+Qed.
+
+Lemma nonnil_len {A} (l : list A) : l <> [] -> (1 <= length l)%nat.
+Proof. destruct l; [contradiction | cbn [length]; lia]. Qed.
+
+Lemma len_nonnil {A} (l : list A) n : length l = (n + 1)%nat -> l <> [].
+Proof. intros H E. rewrite E in H. cbn [length] in H. lia. Qed.
+
+Lemma neq_eqb (a d : nat) : d <> a -> (a =? d)%nat = false /\ (d =? a)%nat = false.
+Proof. intros H. split; apply Nat.eqb_neq; congruence. Qed.
+
+Lemma okP_weaken {A} (P : A -> Prop) (m : outcome A) : okP P m -> safe m.
+Proof. intros H. apply (okP_impl P); [exact H | auto]. Qed.
+
+Lemma safe_bind {A B} (m : outcome A) (f : A -> outcome B) :
+  safe m -> (forall a, m = Ok a -> safe (f a)) -> safe (bind m f).
+Proof. intros Hm Hf. apply (okP_bind (fun _ => True)); [exact Hm | auto]. Qed.
+
+Lemma fold_bind_safe {A B} (body : A -> B -> outcome A) (l : list B) :
+  (forall r i, In i l -> safe (body r i)) ->
+  forall init, safe init ->
+  safe (fold_left (fun acc i => bind acc (fun r => body r i)) l init).
+Proof.
+  induction l as [|i l IH]; intros H init Hi; cbn [fold_left]; [exact Hi|].
+  apply IH; [intros r j Hj; apply H; right; exact Hj|].
+  apply safe_bind; [exact Hi|]. intros r _. apply H. left. reflexivity.
+Qed.
+
+(* ---- the main case analysis ---- *)
+Lemma safe_last {A B} (m : outcome A) (f : A -> outcome B) :
+  safe m -> (forall a, safe (f a)) -> safe (bind m f).
+Proof. intros Hm Hf. apply safe_bind; [exact Hm | intros a _; apply Hf]. Qed.
+
+(* ================================================================== *)
+(* Section 1: facts that do not involve the solver                      *)
+(* ================================================================== *)
+Section PoolPure.
+  Context {F : Type} {K : Ops F} {L : Laws K}.
 
   (* validity of one stored object: the class invariant of its C++ class.  A
      support additionally lives on a valid grid (it shares ownership of one). *)
@@ -65,10 +132,6 @@ Section PoolFacts.
     | InterpDefault d _ _ _ => [d]
     | _ => []
     end.
-
-  (* ================================================================== *)
-  (* Part 1: the store                                                   *)
-  (* ================================================================== *)
 
   Lemma lookup_write (st : state F) j o i :
     lookup (write st (j, o)) i = if (i =? j)%nat then Some o else lookup st i.
@@ -144,34 +207,6 @@ Section PoolFacts.
   Lemma get_spl_inv (st : state F) i s : StInv st -> get_spl st i = Ok s -> SplInv s.
   Proof. intros Hst H. apply get_spl_ok in H. exact (Hst _ _ H). Qed.
 
-  (* ---- step ---- *)
-  Lemma step_ok (st : state F) o ws r :
-    eval_op solver st o = Ok (ws, r) -> step solver st o = (commit st ws, Ok r).
-  Proof. intros H. unfold step. rewrite H. reflexivity. Qed.
-
-  Lemma step_throw (st : state F) o e :
-    eval_op solver st o = Throw e -> step solver st o = (st, Throw e).
-  Proof. intros H. unfold step. rewrite H. reflexivity. Qed.
-
-  Lemma step_ub (st : state F) o k :
-    eval_op solver st o = UB k -> step solver st o = (st, UB k).
-  Proof. intros H. unfold step. rewrite H. reflexivity. Qed.
-
-  (* C14, second half: a failing operation changes nothing *)
-  Theorem throw_changes_nothing (st : state F) o e :
-    snd (step solver st o) = Throw e -> fst (step solver st o) = st.
-  Proof.
-    unfold step. destruct (eval_op solver st o) as [[ws r]|e'|k]; cbn [fst snd];
-      [discriminate | reflexivity | reflexivity].
-  Qed.
-
-  Theorem ub_changes_nothing (st : state F) o k :
-    snd (step solver st o) = UB k -> fst (step solver st o) = st.
-  Proof.
-    unfold step. destruct (eval_op solver st o) as [[ws r]|e'|k']; cbn [fst snd];
-      [discriminate | reflexivity | reflexivity].
-  Qed.
-
   (* ---- a predicate on the writes of an operation, compositional in [bind] ---- *)
   Definition wr_all (Q : list (nat * obj F) -> Prop)
              (m : outcome (list (nat * obj F) * obs F)) : Prop :=
@@ -195,14 +230,6 @@ Section PoolFacts.
   Lemma wr_if (Q : list (nat * obj F) -> Prop) (c : bool) m1 m2 :
     (c = true -> wr_all Q m1) -> (c = false -> wr_all Q m2) -> wr_all Q (if c then m1 else m2).
   Proof. destruct c; auto. Qed.
-
-  (* automatic traversal for goals whose [Q] does not need the intermediate values *)
-  Ltac wr_auto :=
-    repeat first
-      [ apply wr_ub | apply wr_throw
-      | apply wr_bind; intros ? ?
-      | apply wr_if; intros ?
-      | apply wr_ret ].
 
   (* the length of a generated list, whatever the knots *)
   Lemma generate_length (gn : generator) p l :
@@ -229,121 +256,6 @@ Section PoolFacts.
     rewrite (nth_error_combine _ _ n n s') in Hn;
       [|rewrite nth_error_seq by exact Hlt; reflexivity | exact Es].
     injection Hn as <- <-. exists n. cbn [fst snd]. eauto.
-  Qed.
-
-  (* every write of an operation goes to one of its targets *)
-  Lemma eval_op_targets (st : state F) o ws r :
-    eval_op solver st o = Ok (ws, r) -> forall w, In w ws -> In (fst w) (targets o).
-  Proof.
-    revert ws r. change (wr_all (fun ws => forall w, In w ws -> In (fst w) (targets o))
-                                (eval_op solver st o)).
-    destruct o; unfold eval_op; cbn [targets];
-      try solve [wr_auto; cbn [In fst]; intros w Hw; intuition (subst; cbn [fst]; auto)].
-    - (* Gen1 *)
-      apply wr_bind. intros l Hl. apply wr_ret. intros w Hw.
-      apply In_store_splines in Hw as (i & Hi & -> & _).
-      unfold generate_bsplines in Hl. apply bind_ok_inv in Hl as (gn & Hgn & Hl).
-      apply generate_length in Hl.
-      unfold gen_ctor1 in Hgn. apply bind_ok_inv in Hgn as (g & _ & [= <-]).
-      cbn [gknots] in Hl. apply in_seq. lia.
-    - (* Gen2 *)
-      apply wr_bind. intros gr Hgr. apply wr_bind. intros gn Hgn.
-      apply wr_bind. intros l Hl. apply wr_ret. intros w Hw.
-      apply In_store_splines in Hw as (i & Hi & -> & _).
-      apply generate_length in Hl.
-      unfold gen_ctor2 in Hgn. apply bind_ok_inv in Hgn as (g2 & _ & Hgn).
-      destruct (negb (grid_eqb gr g2)); [discriminate|]. injection Hgn as <-.
-      cbn [gknots] in Hl. apply in_seq. lia.
-    - (* Show *)
-      destruct (lookup st a); apply wr_ret; intros w [].
-  Qed.
-
-  (* C14, first half: an operation changes only its targets *)
-  Theorem frame (st : state F) o i :
-    ~ In i (targets o) -> lookup (fst (step solver st o)) i = lookup st i.
-  Proof.
-    intros Hi. unfold step.
-    destruct (eval_op solver st o) as [[ws r]|e|k] eqn:E; cbn [fst]; try reflexivity.
-    apply lookup_commit_other. intros w Hw <-. apply Hi.
-    exact (eval_op_targets st o ws r E w Hw).
-  Qed.
-
-  (* operations without targets (all observers) leave the whole state as it is *)
-  Theorem observers_change_nothing (st : state F) o :
-    targets o = [] -> forall i, lookup (fst (step solver st o)) i = lookup st i.
-  Proof. intros H i. apply frame. rewrite H. intros []. Qed.
-
-  Theorem observers_change_nothing_eq (st : state F) o :
-    targets o = [] -> fst (step solver st o) = st.
-  Proof.
-    intros H. unfold step.
-    destruct (eval_op solver st o) as [[ws r]|e|k] eqn:E; cbn [fst]; try reflexivity.
-    destruct ws as [|w ws]; [reflexivity|].
-    exfalso. pose proof (eval_op_targets st o _ r E w (or_introl eq_refl)) as Hin.
-    rewrite H in Hin. exact Hin.
-  Qed.
-
-  (* value semantics of copies: after [SplCopy d a], no later operation that does
-     not target [a] can change [a] (in particular none applied to the copy [d]) *)
-  Theorem copy_independent (st : state F) d a o :
-    d <> a -> ~ In a (targets o) ->
-    lookup (fst (step solver (fst (step solver st (SplCopy d a))) o)) a = lookup st a.
-  Proof.
-    intros Hda Ha. rewrite frame by exact Ha. apply frame. cbn [targets In]. intuition.
-  Qed.
-
-  (* and the copy holds the value of the source *)
-  Theorem copy_value (st : state F) d a s :
-    lookup st a = Some (VSpl s) ->
-    (forall t, lookup st d = Some (VSpl t) -> sord t = sord s) ->
-    lookup (fst (step solver st (SplCopy d a))) d = Some (VSpl s).
-  Proof.
-    intros Ha Hd. unfold step, eval_op. rewrite (proj2 (get_spl_ok st a s) Ha). cbn [bind].
-    assert ((match lookup st d with
-             | Some (VSpl t) => if (sord t =? sord s)%nat then Ok tt else UB IllTyped
-             | _ => Ok tt end) = Ok tt) as ->.
-    { destruct (lookup st d) as [[g|u|t]|]; try reflexivity.
-      rewrite (Hd t eq_refl), Nat.eqb_refl. reflexivity. }
-    cbn [bind ret fst commit fold_left]. rewrite lookup_write, Nat.eqb_refl. reflexivity.
-  Qed.
-
-  (* ================================================================== *)
-  (* Part 2: what the library functions return                           *)
-  (* ================================================================== *)
-
-  (* library exceptions, as opposed to the two standard-library ones that
-     signal an internal error of the library *)
-  Definition lib_err (e : err) : Prop :=
-    match e with BadOptionalAccess | StdOutOfRange => False | _ => True end.
-
-  (* [m] is not undefined behaviour and not an internal error; a returned value
-     satisfies [P] *)
-  Definition okP {A} (P : A -> Prop) (m : outcome A) : Prop :=
-    match m with Ok a => P a | Throw e => lib_err e | UB _ => False end.
-
-  Lemma okP_ok {A} (P : A -> Prop) m a : okP P m -> m = Ok a -> P a.
-  Proof. intros H ->. exact H. Qed.
-
-  Lemma okP_bind {A B} (P : A -> Prop) (Q : B -> Prop) (m : outcome A) (f : A -> outcome B) :
-    okP P m -> (forall a, m = Ok a -> P a -> okP Q (f a)) -> okP Q (bind m f).
-  Proof. destruct m as [a|e|k]; cbn [okP bind]; intros H Hf; [apply Hf; auto | exact H | exact H]. Qed.
-
-  Lemma okP_impl {A} (P Q : A -> Prop) m : okP P m -> (forall a, m = Ok a -> P a -> Q a) -> okP Q m.
-  Proof. destruct m as [a|e|k]; cbn [okP]; intros H Hf; [apply Hf; auto | exact H | exact H]. Qed.
-
-  Lemma okP_of_ex {A} (P : A -> Prop) m : (exists a, m = Ok a /\ P a) -> okP P m.
-  Proof. intros (a & -> & H). exact H. Qed.
-
-  Lemma omapM_okP {A B} (f : A -> outcome B) (P : B -> Prop) l :
-    (forall a, In a l -> okP P (f a)) ->
-    okP (fun r => length r = length l /\ Forall P r) (omapM f l).
-  Proof.
-    induction l as [|a l IH]; intros H.
-    - cbn. split; [reflexivity | constructor].
-    - rewrite omapM_cons. apply (okP_bind P); [apply H; left; reflexivity|].
-      intros b _ Hb. apply (okP_bind (fun r => length r = length l /\ Forall P r)).
-      + apply IH. intros a' Ha'. apply H. right. exact Ha'.
-      + intros bs _ [Hl Hbs]. cbn [okP length]. split; [congruence | constructor; assumption].
   Qed.
 
   (* grids of two objects: equal or not *)
@@ -514,12 +426,6 @@ Section PoolFacts.
     apply bind_ok_inv in H as (v & Hv & H). injection H as <-. cbn [expr_inv].
     exact (get_spl_inv st i v Hst Hv).
   Qed.
-
-  Lemma nonnil_len {A} (l : list A) : l <> [] -> (1 <= length l)%nat.
-  Proof. destruct l; [contradiction | cbn [length]; lia]. Qed.
-
-  Lemma len_nonnil {A} (l : list A) n : length l = (n + 1)%nat -> l <> [].
-  Proof. intros H E. rewrite E in H. cbn [length] in H. lia. Qed.
 
   (* totality of O::transform for valid factors on ANY grid: the transformed
      array, of the length announced by outputOrder, or DIFFERING_GRIDS *)
@@ -712,21 +618,6 @@ Section PoolFacts.
     cbn [okP]. split; assumption.
   Qed.
 
-  Lemma interp_build_inv order (x : support F) sys :
-    SInv x -> GInv (sgrid x) -> (2 <= sup_size x)%N ->
-    length sys = ((order + 1) * (N.to_nat (sup_size x) - 1))%nat ->
-    okP (@SplInv F K) (interp_build order x (solver (length sys) sys)).
-  Proof.
-    intros Hs Hg H2 Ls.
-    destruct (interp_build_ok order x (solver (length sys) sys) Hs Hg H2) as [-> Hi].
-    - rewrite solver_len. exact Ls.
-    - exact Hi.
-  Qed.
-
-  (* ================================================================== *)
-  (* Part 3: C10 — every object an operation writes is valid             *)
-  (* ================================================================== *)
-
   (* The model's grid invariant carries the size bound of a real std::vector
      (< 2^63 elements), which [grid_ctor] cannot establish by itself for the
      mathematical lists of the model: the list arguments from which an operation
@@ -764,6 +655,437 @@ Section PoolFacts.
     intros Hl. apply Forall_forall. intros w Hw.
     apply In_store_splines in Hw as (i & _ & _ & s & Hs & ->).
     rewrite Forall_forall in Hl. apply Hl. eapply nth_error_In. exact Hs.
+  Qed.
+
+  (* a moved-from object is a valid interval-free object on the same grid *)
+  Theorem moved_from_valid_sup (s : support F) :
+    ObjInv (VSup s) ->
+    ObjInv (VSup (sup_empty_on (sgrid s))) /\ sgrid (sup_empty_on (sgrid s)) = sgrid s /\
+    nintervals (sup_empty_on (sgrid s)) = 0%N.
+  Proof. intros [_ Hg]. split; [apply sup_empty_on_inv; exact Hg | split; reflexivity]. Qed.
+
+  Theorem moved_from_valid_spl (s : spline F) :
+    ObjInv (VSpl s) ->
+    let m := mkSpl (sup_empty_on (sgrid (ssup s))) (sord s) [] in
+    ObjInv (VSpl m) /\ sgridp m = sgridp s /\ sord m = sord s /\ scoefs m = [].
+  Proof. intros Hs. split; [apply moved_from_spl_inv; exact Hs | repeat split]. Qed.
+
+  (* the forms *)
+  Lemma linear_safe (o : opx F) (a : spline F) : opx_inv o -> SplInv a -> safe (linear o a).
+  Proof.
+    intros Ho Ha. pose proof Ha as (Hs & Hg & Hn & Hc). unfold linear.
+    apply (fold_bind_safe (fun (r : F) (i : N) =>
+      do ai <- abs_from_rel (ssup a) i;
+      do hi <- sup_sub (ssup a) (wadd i 1);
+      do lo <- sup_sub (ssup a) i;
+      do ca <- coefs_at a i;
+      do ta <- transform o ca (sgrid (ssup a)) ai;
+      do v <- lin_kernel ta ((hi - lo) / f2)%F; Ok (r + v)%F)); [|exact I].
+    intros r i Hi. apply In_nrange in Hi.
+    rewrite (Proofs_Spline.num_intervals_nintervals _ Hs) in Hi.
+    pose proof (nintervals_imem _ _ Hi) as Hk.
+    pose proof (imem_lt _ _ Hs Hk) as [_ Hk63].
+    pose proof (imem_grid _ _ Hs Hk) as Hkg.
+    pose proof (SInv_bounds _ Hs) as B.
+    assert (Hi2 : (sstart (ssup a) + i + 1 < sstop (ssup a))%N) by (unfold imem in Hk; lia).
+    rewrite abs_from_rel_in by assumption. cbn [bind].
+    rewrite (wadd_small i 1) by (unfold W; lia).
+    rewrite !Proofs_Eval.sup_sub_gnth by (try exact Hs; lia). cbn [bind].
+    destruct (piece_in a _ Ha Hk) as [Hp Lp].
+    replace (sstart (ssup a) + i - sstart (ssup a))%N with i in Hp by lia.
+    unfold coefs_at. rewrite (sub_nth_error _ _ _ Hp). cbn [bind].
+    destruct (transform_total_shape o Ho (piece a (sstart (ssup a) + i)) (sgrid (ssup a))
+                (sstart (ssup a) + i)%N (proj1 (proj2 Hg)) Hkg (len_nonnil _ _ Lp))
+      as [(t & -> & Lt)| ->]; [|exact I].
+    cbn [bind]. rewrite lin_kernel_spec by (apply (len_nonnil _ _ Lt)). exact I.
+  Qed.
+
+  Lemma bilinear_safe (o1 o2 : opx F) (a b : spline F) :
+    opx_inv o1 -> opx_inv o2 -> SplInv a -> SplInv b -> safe (bilinear o1 o2 a b).
+  Proof.
+    intros Ho1 Ho2 Ha Hb.
+    destruct (grid_eq_dec (sgridp a) (sgridp b)) as [Hg|Hg];
+      [|rewrite bilinear_differing by exact Hg; exact I].
+    pose proof Ha as (Hsa & Hga & _). pose proof Hb as (Hsb & Hgb & _).
+    destruct (calc_inter_spec _ _ Hsa Hsb Hg) as (u & Eu & Su & Gu & _).
+    destruct (inter_facts a b u Ha Hb Hg Eu) as (_ & _ & Mu).
+    unfold bilinear. rewrite Eu. cbn [bind].
+    apply (fold_bind_safe (fun (r : F) (i : N) =>
+      do ai <- abs_from_rel u i;
+      do ja <- value (interval_index (ssup a) ai);
+      do jb <- value (interval_index (ssup b) ai);
+      do hi <- sup_sub (ssup a) (wadd ja 1);
+      do lo <- sup_sub (ssup a) ja;
+      do ca <- coefs_at a ja;
+      do ta <- transform o1 ca (sgrid u) ai;
+      do cb <- coefs_at b jb;
+      do tb <- transform o2 cb (sgrid u) ai;
+      do v <- bi_kernel ta tb ((hi - lo) / f2)%F; Ok (r + v)%F)); [|exact I].
+    intros r i Hi. apply In_nrange in Hi.
+    rewrite (Proofs_Spline.num_intervals_nintervals _ Su) in Hi.
+    set (k := (sstart u + i)%N).
+    assert (Hk : imem k u) by (apply nintervals_imem; exact Hi).
+    destruct (proj1 (Mu k) Hk) as [Hka Hkb].
+    pose proof (imem_grid _ _ Su Hk) as Hkg.
+    pose proof (SInv_bounds _ Hsa) as Ba.
+    rewrite abs_from_rel_in by assumption. cbn [bind]. fold k.
+    rewrite !interval_index_in by assumption. cbn [value of_option bind].
+    assert (Hka' : (sstart (ssup a) <= k /\ k + 1 < sstop (ssup a))%N) by exact Hka.
+    rewrite (wadd_small (k - sstart (ssup a)) 1) by (unfold W; lia).
+    rewrite !Proofs_Eval.sup_sub_gnth by (try exact Hsa; lia). cbn [bind].
+    rewrite !coefs_at_in by assumption. cbn [bind].
+    destruct (piece_in a k Ha Hka) as [_ Lpa]. destruct (piece_in b k Hb Hkb) as [_ Lpb].
+    assert (Hgu63 : (nlen (sgrid u) < 2 ^ 63)%N) by (rewrite Gu; apply Hga).
+    destruct (transform_total_shape o1 Ho1 (piece a k) (sgrid u) k Hgu63 Hkg (len_nonnil _ _ Lpa))
+      as [(ta & -> & Lta)| ->]; [|exact I].
+    cbn [bind].
+    destruct (transform_total_shape o2 Ho2 (piece b k) (sgrid u) k Hgu63 Hkg (len_nonnil _ _ Lpb))
+      as [(tb & -> & Ltb)| ->]; [|exact I].
+    cbn [bind].
+    rewrite bi_kernel_spec by (eapply len_nonnil; eassumption). exact I.
+  Qed.
+
+  (* ---- the remaining accessors ---- *)
+  Lemma grid_at_safe (g : list F) i : safe (grid_at g i).
+  Proof.
+    unfold grid_at, grid_size. destruct (nlen g <=? i)%N eqn:E; [exact I|].
+    unfold grid_sub. destruct (nlen_nnth g i ltac:(lia)) as [x ->]. exact I.
+  Qed.
+
+  Lemma grid_sub_safe (g : list F) i : (i < nlen g)%N -> safe (grid_sub g i).
+  Proof. intros H. unfold grid_sub. destruct (nlen_nnth g i H) as [x ->]. exact I. Qed.
+
+  Lemma grid_find_safe (g : list F) x : safe (grid_find g x).
+  Proof. destruct (grid_find_cases_nolaws g x) as [[i ->]| ->]; exact I. Qed.
+
+  Lemma grid_front_safe (g : list F) : safe (grid_front g).
+  Proof. destruct g; exact I. Qed.
+
+  Lemma grid_back_safe (g : list F) : safe (grid_back g).
+  Proof. destruct g; exact I. Qed.
+
+  Lemma abs_from_rel_safe (s : support F) i : safe (abs_from_rel s i).
+  Proof. unfold abs_from_rel. destruct (sup_size s <=? i)%N; exact I. Qed.
+
+  Lemma sup_at_safe (s : support F) i : SInv s -> (i < W)%N -> safe (sup_at s i).
+  Proof.
+    intros Hs Hi. rewrite sup_at_spec by assumption. destruct (nnth (sup_points s) i); exact I.
+  Qed.
+
+  Lemma sup_sub_safe (s : support F) i : SInv s -> (i < sup_size s)%N -> safe (sup_sub s i).
+  Proof.
+    intros Hs Hi. rewrite sup_size_inv in Hi by exact Hs.
+    destruct (sup_sub_spec s i Hs Hi) as (x & -> & _). exact I.
+  Qed.
+
+  Lemma sup_front_safe (s : support F) : SInv s -> safe (sup_front s).
+  Proof. intros Hs. rewrite sup_front_spec by exact Hs. destruct (sup_points s); exact I. Qed.
+
+  Lemma sup_back_safe (s : support F) : SInv s -> safe (sup_back s).
+  Proof. intros Hs. rewrite sup_back_spec by exact Hs. destruct (sup_points s); exact I. Qed.
+
+  Lemma spl_div_okP (s : spline F) d : SplInv s -> d <> f0 -> okP (@SplInv F K) (spl_div s d).
+  Proof. intros Hs Hd. destruct (spl_div_spec s d Hs Hd) as (r & -> & Hr & _). exact Hr. Qed.
+
+  Lemma spl_iadd_okP (a b : spline F) : SplInv a -> SplInv b -> (sord b <= sord a)%nat ->
+    okP (@SplInv F K) (spl_iadd a b).
+  Proof. intros Ha Hb Ho. rewrite spl_iadd_eq by exact Ho. apply spl_add_okP; assumption. Qed.
+
+  Lemma spl_isub_okP (a b : spline F) : SplInv a -> SplInv b -> (sord b <= sord a)%nat ->
+    okP (@SplInv F K) (spl_isub a b).
+  Proof. intros Ha Hb Ho. rewrite spl_isub_eq by exact Ho. apply spl_sub_okP; assumption. Qed.
+
+  Lemma spl_eval_safe (s : spline F) x : SplInv s -> safe (spl_eval s x).
+  Proof. intros Hs. destruct (seval_total s x Hs) as [v ->]. exact I. Qed.
+
+  Lemma check_overlap_safe (a b : spline F) : SplInv a -> SplInv b -> safe (check_overlap a b).
+  Proof. intros Ha Hb. destruct (check_overlap_total a b Ha Hb) as [r ->]. exact I. Qed.
+
+  (* ---- typing of operations ---- *)
+  Definition is_grid (st : state F) (i : nat) : Prop := exists g, lookup st i = Some (VGrid g).
+  Definition is_sup (st : state F) (i : nat) : Prop := exists s, lookup st i = Some (VSup s).
+  Definition is_spl (st : state F) (i : nat) : Prop := exists s, lookup st i = Some (VSpl s).
+
+  (* every spline factor of an operator expression names a slot holding a spline *)
+  Fixpoint slots_ok (st : state F) (e : pexpr F) : Prop :=
+    match e with
+    | PId | PPos _ | PDer _ => True
+    | PSpl i => is_spl st i
+    | PMul a b | PAdd a b | PSub a b => slots_ok st a /\ slots_ok st b
+    | PSMulL _ a | PSMulR a _ | PDivS a _ | PAddS a _ | PSAdd _ a | PSubS a _ | PSSub _ a
+    | PNeg a => slots_ok st a
+    end.
+
+  (* ... and no divisor of the expression is a zero scalar: exactly the guard
+     [divisors_ok] that [eval_op] tests (documented precondition of operator/) *)
+  Definition pexpr_typed (st : state F) (e : pexpr F) : Prop :=
+    slots_ok st e /\ divisors_ok e = true.
+
+  (* The static typing and the documented preconditions of one call.  Each
+     clause says which slots must hold which kind of object (otherwise the C++
+     call would not compile), plus:
+     - list arguments are shorter than 2^63 (a std::vector) and index arguments
+       are below 2^64 (a size_t);
+     - GridSub / SupSub are the explicitly unchecked operator[]: the index must
+       be in range;
+     - SplNew: std::array<T, order+1> coefficient arrays;
+     - SplCopy / SplMoveAssign: copy/move assignment is between splines of one
+       order; SplAssignUp: the converting assignment needs a strictly lower
+       source order; SplIAdd / SplISub: static_assert(ordera <= order);
+       SplEq: operator== compares splines of one order; SplLinComb: a
+       std::vector<Spline<T, order>> has one order;
+     - SplDiv / SplIDiv and expression divisors: division by zero is outside the
+       documented precondition;
+     - Transform: the raw [transform] of an operator is called by the library
+       with a non-empty coefficient array and an interval index of the grid;
+     - Interp: order >= 1 and exactly order-1 boundary conditions
+       (std::array<Boundary, order-1>). *)
+  Definition op_typed (st : state F) (o : op F) : Prop :=
+    match o with
+    | GridNew _ pts => (nlen pts < 2 ^ 63)%N
+    | GridCopy _ a | GridSize a | GridFront a | GridBack a => is_grid st a
+    | GridFind a _ => is_grid st a
+    | GridAt a i => is_grid st a /\ (i < W)%N
+    | GridSub a i => exists g, lookup st a = Some (VGrid g) /\ (i < grid_size g)%N
+    | GridEq a b => is_grid st a /\ is_grid st b
+    | SupNew _ g i j => is_grid st g /\ (i < W)%N /\ (j < W)%N
+    | SupEmpty _ g | SupWhole _ g => is_grid st g
+    | SupCopy _ a | SupMove _ a | SupGrid _ a => is_sup st a
+    | SupFront a | SupBack a | SupIter a | SupIsEmpty a | SupContains a => is_sup st a
+    | SupMoveAssign d a => is_sup st d /\ is_sup st a
+    | SupUnion _ a b | SupInter _ a b => is_sup st a /\ is_sup st b
+    | SupEq a b | SupSameGrid a b => is_sup st a /\ is_sup st b
+    | SupRel a i | SupIvl a i | SupAbs a i | SupAt a i => is_sup st a /\ (i < W)%N
+    | SupSub a i => exists s, lookup st a = Some (VSup s) /\ (i < sup_size s)%N
+    | SplNew _ ord sup coefs =>
+        is_sup st sup /\ Forall (fun c => length c = (ord + 1)%nat) coefs /\
+        (nlen coefs < 2 ^ 63)%N
+    | SplEmpty _ _ g => is_grid st g
+    | SplCopy d a =>
+        exists s, lookup st a = Some (VSpl s) /\
+                  forall t, lookup st d = Some (VSpl t) -> sord t = sord s
+    | SplMove _ a => is_spl st a
+    | SplMoveAssign d a =>
+        exists t s, lookup st d = Some (VSpl t) /\ lookup st a = Some (VSpl s) /\ sord t = sord s
+    | SplAssignUp d a =>
+        exists t s, lookup st d = Some (VSpl t) /\ lookup st a = Some (VSpl s) /\
+                    (sord s < sord t)%nat
+    | SplScale _ a _ | SplIMul a _ => is_spl st a
+    | SplScaleL _ _ a => is_spl st a
+    | SplNeg _ a | SplSupport _ a => is_spl st a
+    | SplDiv _ a c | SplIDiv a c => is_spl st a /\ c <> f0
+    | SplAdd _ a b | SplSub _ a b | SplMul _ a b => is_spl st a /\ is_spl st b
+    | SplIAdd a b | SplISub a b =>
+        exists s t, lookup st a = Some (VSpl s) /\ lookup st b = Some (VSpl t) /\
+                    (sord t <= sord s)%nat
+    | SplLinComb _ cs ss =>
+        (exists l, Forall2 (fun i s => lookup st i = Some (VSpl s)) ss l /\
+                   forall s s', In s l -> In s' l -> sord s = sord s') /\
+        (nlen cs < 2 ^ 63)%N /\ (nlen ss < 2 ^ 63)%N
+    | SplEval a _ => is_spl st a
+    | SplFront a | SplBack a | SplIsZero a => is_spl st a
+    | SplOverlap a b => is_spl st a /\ is_spl st b
+    | SplEq a b =>
+        exists s t, lookup st a = Some (VSpl s) /\ lookup st b = Some (VSpl t) /\ sord s = sord t
+    | Apply _ e a => pexpr_typed st e /\ is_spl st a
+    | Transform e input g k =>
+        pexpr_typed st e /\ input <> [] /\ (nlen input < 2 ^ 63)%N /\
+        exists gr, lookup st g = Some (VGrid gr) /\ (k + 1 < grid_size gr)%N
+    | Bilin e1 e2 a b => pexpr_typed st e1 /\ pexpr_typed st e2 /\ is_spl st a /\ is_spl st b
+    | Lin e a => pexpr_typed st e /\ is_spl st a
+    | Gen1 _ _ knots => (nlen knots < 2 ^ 63)%N
+    | Gen2 _ _ knots g => is_grid st g /\ (nlen knots < 2 ^ 63)%N
+    | Interp _ order x y bs =>
+        is_sup st x /\ (1 <= order)%nat /\ length bs = (order - 1)%nat /\ (nlen y < 2 ^ 63)%N
+    | InterpDefault _ order x y => is_sup st x /\ (1 <= order)%nat /\ (nlen y < 2 ^ 63)%N
+    | Show _ => True
+    end.
+
+  Lemma op_typed_sized (st : state F) o : op_typed st o -> op_sized o.
+  Proof. destruct o; cbn [op_typed op_sized]; try exact (fun _ => I); tauto. Qed.
+
+  Lemma resolve_total (st : state F) (e : pexpr F) :
+    slots_ok st e -> exists ex, resolve st e = Ok ex.
+  Proof.
+    induction e as [|n|n|i|a IHa b IHb|a IHa b IHb|a IHa b IHb|s a IHa|a IHa s|a IHa s
+                    |a IHa s|s a IHa|a IHa s|s a IHa|a IHa];
+      cbn [slots_ok resolve]; intros H;
+      try (eexists; reflexivity);
+      try (destruct H as [Ha Hb]; destruct (IHa Ha) as [a' ->]; destruct (IHb Hb) as [b' ->];
+           eexists; reflexivity);
+      try (destruct (IHa H) as [a' ->]; eexists; reflexivity).
+    destruct H as [v Hv]. rewrite (proj2 (get_spl_ok st i v) Hv). eexists. reflexivity.
+  Qed.
+
+  Lemma copy_check (st : state F) d (s : spline F) :
+    (forall t, lookup st d = Some (VSpl t) -> sord t = sord s) ->
+    match lookup st d with
+    | Some (VSpl t) => if (sord t =? sord s)%nat then Ok tt else UB IllTyped
+    | _ => Ok tt
+    end = Ok tt.
+  Proof.
+    intros Hd. destruct (lookup st d) as [[g|u|t]|]; try reflexivity.
+    rewrite (Hd t eq_refl), Nat.eqb_refl. reflexivity.
+  Qed.
+
+  Lemma omapM_get_spl_total (st : state F) ss l :
+    Forall2 (fun i s => lookup st i = Some (VSpl s)) ss l -> omapM (get_spl st) ss = Ok l.
+  Proof.
+    induction 1 as [|i s ss l Hi _ IH]; [reflexivity|].
+    rewrite omapM_cons, (proj2 (get_spl_ok st i s) Hi). cbn [bind]. rewrite IH. reflexivity.
+  Qed.
+
+  Lemma order_check (l : list (spline F)) :
+    (forall s s', In s l -> In s' l -> sord s = sord s') ->
+    match l with
+    | s0 :: _ => if forallb (fun s => (sord s =? sord s0)%nat) l then Ok tt else UB IllTyped
+    | [] => Ok tt
+    end = Ok tt.
+  Proof.
+    intros Ho. destruct l as [|s0 rest]; [reflexivity|].
+    assert (forallb (fun s => (sord s =? sord s0)%nat) (s0 :: rest) = true) as ->; [|reflexivity].
+    apply forallb_forall. intros s Hs. apply Nat.eqb_eq. apply Ho; [exact Hs | left; reflexivity].
+  Qed.
+
+End PoolPure.
+
+(* automatic traversal for goals whose [Q] does not need the intermediate values *)
+Ltac wr_auto :=
+  repeat first
+    [ apply wr_ub | apply wr_throw
+    | apply wr_bind; intros ? ?
+    | apply wr_if; intros ?
+    | apply wr_ret ].
+
+Ltac got H :=
+  first [ rewrite (proj2 (get_grid_ok _ _ _) H)
+        | rewrite (proj2 (get_sup_ok _ _ _) H)
+        | rewrite (proj2 (get_spl_ok _ _ _) H) ]; cbn [bind].
+
+Ltac fin := intros; exact I.
+
+(* ================================================================== *)
+(* Section 2: the state machine, for any solver returning a vector of   *)
+(* the problem size                                                    *)
+(* ================================================================== *)
+Section PoolFacts.
+  Context {F : Type} {K : Ops F} {L : Laws K}.
+  Variable solver : nat -> list (row F) -> list F.
+  Hypothesis solver_len : forall n sys, length (solver n sys) = n.
+
+  (* ---- step ---- *)
+  Lemma step_ok (st : state F) o ws r :
+    eval_op solver st o = Ok (ws, r) -> step solver st o = (commit st ws, Ok r).
+  Proof. intros H. unfold step. rewrite H. reflexivity. Qed.
+
+  Lemma step_throw (st : state F) o e :
+    eval_op solver st o = Throw e -> step solver st o = (st, Throw e).
+  Proof. intros H. unfold step. rewrite H. reflexivity. Qed.
+
+  Lemma step_ub (st : state F) o k :
+    eval_op solver st o = UB k -> step solver st o = (st, UB k).
+  Proof. intros H. unfold step. rewrite H. reflexivity. Qed.
+
+  (* C14, second half: a failing operation changes nothing *)
+  Theorem throw_changes_nothing (st : state F) o e :
+    snd (step solver st o) = Throw e -> fst (step solver st o) = st.
+  Proof.
+    unfold step. destruct (eval_op solver st o) as [[ws r]|e'|k]; cbn [fst snd];
+      [discriminate | reflexivity | reflexivity].
+  Qed.
+
+  Theorem ub_changes_nothing (st : state F) o k :
+    snd (step solver st o) = UB k -> fst (step solver st o) = st.
+  Proof.
+    unfold step. destruct (eval_op solver st o) as [[ws r]|e'|k']; cbn [fst snd];
+      [discriminate | reflexivity | reflexivity].
+  Qed.
+
+  (* every write of an operation goes to one of its targets *)
+  Lemma eval_op_targets (st : state F) o ws r :
+    eval_op solver st o = Ok (ws, r) -> forall w, In w ws -> In (fst w) (targets o).
+  Proof.
+    revert ws r. change (wr_all (fun ws => forall w, In w ws -> In (fst w) (targets o))
+                                (eval_op solver st o)).
+    destruct o; unfold eval_op; cbn [targets];
+      try solve [wr_auto; cbn [In fst]; intros w Hw; intuition (subst; cbn [fst]; auto)].
+    - (* Gen1 *)
+      apply wr_bind. intros l Hl. apply wr_ret. intros w Hw.
+      apply In_store_splines in Hw as (i & Hi & -> & _).
+      unfold generate_bsplines in Hl. apply bind_ok_inv in Hl as (gn & Hgn & Hl).
+      apply generate_length in Hl.
+      unfold gen_ctor1 in Hgn. apply bind_ok_inv in Hgn as (g & _ & [= <-]).
+      cbn [gknots] in Hl. apply in_seq. lia.
+    - (* Gen2 *)
+      apply wr_bind. intros gr Hgr. apply wr_bind. intros gn Hgn.
+      apply wr_bind. intros l Hl. apply wr_ret. intros w Hw.
+      apply In_store_splines in Hw as (i & Hi & -> & _).
+      apply generate_length in Hl.
+      unfold gen_ctor2 in Hgn. apply bind_ok_inv in Hgn as (g2 & _ & Hgn).
+      destruct (negb (grid_eqb gr g2)); [discriminate|]. injection Hgn as <-.
+      cbn [gknots] in Hl. apply in_seq. lia.
+    - (* Show *)
+      destruct (lookup st a); apply wr_ret; intros w [].
+  Qed.
+
+  (* C14, first half: an operation changes only its targets *)
+  Theorem frame (st : state F) o i :
+    ~ In i (targets o) -> lookup (fst (step solver st o)) i = lookup st i.
+  Proof.
+    intros Hi. unfold step.
+    destruct (eval_op solver st o) as [[ws r]|e|k] eqn:E; cbn [fst]; try reflexivity.
+    apply lookup_commit_other. intros w Hw <-. apply Hi.
+    exact (eval_op_targets st o ws r E w Hw).
+  Qed.
+
+  (* operations without targets (all observers) leave the whole state as it is *)
+  Theorem observers_change_nothing (st : state F) o :
+    targets o = [] -> forall i, lookup (fst (step solver st o)) i = lookup st i.
+  Proof. intros H i. apply frame. rewrite H. intros []. Qed.
+
+  Theorem observers_change_nothing_eq (st : state F) o :
+    targets o = [] -> fst (step solver st o) = st.
+  Proof.
+    intros H. unfold step.
+    destruct (eval_op solver st o) as [[ws r]|e|k] eqn:E; cbn [fst]; try reflexivity.
+    destruct ws as [|w ws]; [reflexivity|].
+    exfalso. pose proof (eval_op_targets st o _ r E w (or_introl eq_refl)) as Hin.
+    rewrite H in Hin. exact Hin.
+  Qed.
+
+  (* value semantics of copies: after [SplCopy d a], no later operation that does
+     not target [a] can change [a] (in particular none applied to the copy [d]) *)
+  Theorem copy_independent (st : state F) d a o :
+    d <> a -> ~ In a (targets o) ->
+    lookup (fst (step solver (fst (step solver st (SplCopy d a))) o)) a = lookup st a.
+  Proof.
+    intros Hda Ha. rewrite frame by exact Ha. apply frame. cbn [targets In]. intuition.
+  Qed.
+
+  (* and the copy holds the value of the source *)
+  Theorem copy_value (st : state F) d a s :
+    lookup st a = Some (VSpl s) ->
+    (forall t, lookup st d = Some (VSpl t) -> sord t = sord s) ->
+    lookup (fst (step solver st (SplCopy d a))) d = Some (VSpl s).
+  Proof.
+    intros Ha Hd. unfold step, eval_op. rewrite (proj2 (get_spl_ok st a s) Ha). cbn [bind].
+    assert ((match lookup st d with
+             | Some (VSpl t) => if (sord t =? sord s)%nat then Ok tt else UB IllTyped
+             | _ => Ok tt end) = Ok tt) as ->.
+    { destruct (lookup st d) as [[g|u|t]|]; try reflexivity.
+      rewrite (Hd t eq_refl), Nat.eqb_refl. reflexivity. }
+    cbn [bind ret fst commit fold_left]. rewrite lookup_write, Nat.eqb_refl. reflexivity.
+  Qed.
+
+  Lemma interp_build_inv order (x : support F) sys :
+    SInv x -> GInv (sgrid x) -> (2 <= sup_size x)%N ->
+    length sys = ((order + 1) * (N.to_nat (sup_size x) - 1))%nat ->
+    okP (@SplInv F K) (interp_build order x (solver (length sys) sys)).
+  Proof.
+    intros Hs Hg H2 Ls.
+    destruct (interp_build_ok order x (solver (length sys) sys) Hs Hg H2) as [-> Hi].
+    - rewrite solver_len. exact Ls.
+    - exact Hi.
   Qed.
 
   Theorem eval_op_inv (st : state F) o ws r :
@@ -953,13 +1275,6 @@ Section PoolFacts.
     Forall op_sized ops -> StInv (fst (run solver [] ops)).
   Proof. apply inv_run. exact inv_init. Qed.
 
-  (* ================================================================== *)
-  (* Part 4: moved-from objects                                          *)
-  (* ================================================================== *)
-
-  Lemma neq_eqb (a d : nat) : d <> a -> (a =? d)%nat = false /\ (d =? a)%nat = false.
-  Proof. intros H. split; apply Nat.eqb_neq; congruence. Qed.
-
   (* Support d(std::move(a)): the source becomes the empty view of its grid *)
   Theorem moved_from_sup (st : state F) d a s :
     d <> a -> lookup st a = Some (VSup s) ->
@@ -1010,24 +1325,6 @@ Section PoolFacts.
     rewrite !Nat.eqb_refl. split; [reflexivity|].
     intros Hda. destruct (neq_eqb a d Hda) as [E1 E2]. rewrite E2. reflexivity.
   Qed.
-
-  (* a moved-from object is a valid interval-free object on the same grid *)
-  Theorem moved_from_valid_sup (s : support F) :
-    ObjInv (VSup s) ->
-    ObjInv (VSup (sup_empty_on (sgrid s))) /\ sgrid (sup_empty_on (sgrid s)) = sgrid s /\
-    nintervals (sup_empty_on (sgrid s)) = 0%N.
-  Proof. intros [_ Hg]. split; [apply sup_empty_on_inv; exact Hg | split; reflexivity]. Qed.
-
-  Theorem moved_from_valid_spl (s : spline F) :
-    ObjInv (VSpl s) ->
-    let m := mkSpl (sup_empty_on (sgrid (ssup s))) (sord s) [] in
-    ObjInv (VSpl m) /\ sgridp m = sgridp s /\ sord m = sord s /\ scoefs m = [].
-  Proof. intros Hs. split; [apply moved_from_spl_inv; exact Hs | repeat split]. Qed.
-
-  (* ================================================================== *)
-  (* Part 5: C08 — operations across different grids are refused and     *)
-  (* change nothing                                                      *)
-  (* ================================================================== *)
 
   Lemma step_of_throw (st : state F) o e :
     eval_op solver st o = Throw e -> step solver st o = (st, Throw e).
@@ -1113,6 +1410,227 @@ Section PoolFacts.
     { apply forallb_forall. intros s Hs. apply Nat.eqb_eq. apply Ho. exact Hs. }
     cbn [bind]. rewrite lin_comb_differing; [reflexivity | | exact Hex].
     rewrite Hlen. symmetry. exact (omapM_length _ _ _ Hl).
+  Qed.
+
+  (* C08 for the bilinear form and for the generator given a foreign grid *)
+  Theorem c08_bilin (st : state F) e1 e2 a b sa sb :
+    pexpr_typed st e1 -> pexpr_typed st e2 ->
+    lookup st a = Some (VSpl sa) -> lookup st b = Some (VSpl sb) -> sgridp sa <> sgridp sb ->
+    step solver st (Bilin e1 e2 a b) = (st, Throw DIFFERING_GRIDS).
+  Proof.
+    intros [S1 D1] [S2 D2] Ha Hb Hg. apply step_throw. unfold eval_op.
+    rewrite D1, D2. cbn [andb negb].
+    destruct (resolve_total st e1 S1) as [x1 ->]. destruct (resolve_total st e2 S2) as [x2 ->].
+    rewrite (proj2 (get_spl_ok _ _ _) Ha), (proj2 (get_spl_ok _ _ _) Hb). cbn [bind].
+    rewrite bilinear_differing by exact Hg. reflexivity.
+  Qed.
+
+  Theorem c08_gen2 (st : state F) d0 order knots g gr :
+    lookup st g = Some (VGrid gr) ->
+    nondecreasing knots -> two_distinct knots -> (nlen knots < 2 ^ 63)%N -> gr <> unique knots ->
+    step solver st (Gen2 d0 order knots g) = (st, Throw INCONSISTENT_DATA).
+  Proof.
+    intros Hg Hn Hd Hl Hne. apply step_throw. unfold eval_op.
+    rewrite (proj2 (get_grid_ok _ _ _) Hg). cbn [bind].
+    rewrite (gen_ctor2_mismatch knots gr Hn Hd Hl Hne). reflexivity.
+  Qed.
+
+  Lemma eval_safe (st : state F) o : StInv st -> op_typed st o -> safe (eval_op solver st o).
+  Proof.
+    intros Hst Ht. destruct o; unfold eval_op; cbn [op_typed] in Ht.
+    - (* GridNew *)
+      apply safe_last; [apply (okP_weaken _ _ (grid_ctor_okP pts)) | fin].
+    - (* GridCopy *) destruct Ht as [g Hg]. got Hg. exact I.
+    - (* GridAt *)
+      destruct Ht as [[g Hg] _]. got Hg. apply safe_last; [apply grid_at_safe | fin].
+    - (* GridSub *)
+      destruct Ht as (g & Hg & Hi). got Hg. apply safe_last; [apply grid_sub_safe; exact Hi | fin].
+    - (* GridFind *)
+      destruct Ht as [g Hg]. got Hg. apply safe_last; [apply grid_find_safe | fin].
+    - (* GridEq *) destruct Ht as [[g Hg] [h Hh]]. got Hg. got Hh. exact I.
+    - (* GridSize *) destruct Ht as [g Hg]. got Hg. exact I.
+    - (* GridFront *)
+      destruct Ht as [g Hg]. got Hg. apply safe_last; [apply grid_front_safe | fin].
+    - (* GridBack *)
+      destruct Ht as [g Hg]. got Hg. apply safe_last; [apply grid_back_safe | fin].
+    - (* SupNew *)
+      destruct Ht as ([gr Hg] & _ & _). got Hg. pose proof (Hst _ _ Hg) as Ig.
+      apply safe_last; [apply (okP_weaken _ _ (sup_ctor_okP gr i j (proj1 (proj2 Ig)))) | fin].
+    - (* SupEmpty *)
+      destruct Ht as [gr Hg]. got Hg. pose proof (Hst _ _ Hg) as Ig. unfold create_empty.
+      apply safe_last; [apply (okP_weaken _ _ (sup_ctor_okP gr _ _ (proj1 (proj2 Ig)))) | fin].
+    - (* SupWhole *)
+      destruct Ht as [gr Hg]. got Hg. pose proof (Hst _ _ Hg) as Ig. unfold create_whole.
+      apply safe_last; [apply (okP_weaken _ _ (sup_ctor_okP gr _ _ (proj1 (proj2 Ig)))) | fin].
+    - (* SupCopy *) destruct Ht as [s Hs]. got Hs. exact I.
+    - (* SupMove *) destruct Ht as [s Hs]. got Hs. exact I.
+    - (* SupMoveAssign *) destruct Ht as [[t Hd] [s Hs]]. got Hd. got Hs. exact I.
+    - (* SupUnion *)
+      destruct Ht as [[s Hs] [t Ht']]. got Hs. got Ht'.
+      destruct (Hst _ _ Hs) as [Is _]. destruct (Hst _ _ Ht') as [It _].
+      apply safe_last; [apply (okP_weaken _ _ (calc_union_okP s t Is It)) | fin].
+    - (* SupInter *)
+      destruct Ht as [[s Hs] [t Ht']]. got Hs. got Ht'.
+      destruct (Hst _ _ Hs) as [Is _]. destruct (Hst _ _ Ht') as [It _].
+      apply safe_last; [apply (okP_weaken _ _ (calc_inter_okP s t Is It)) | fin].
+    - (* SupRel *) destruct Ht as [[s Hs] _]. got Hs. exact I.
+    - (* SupIvl *) destruct Ht as [[s Hs] _]. got Hs. exact I.
+    - (* SupAbs *)
+      destruct Ht as [[s Hs] _]. got Hs. apply safe_last; [apply abs_from_rel_safe | fin].
+    - (* SupAt *)
+      destruct Ht as [[s Hs] Hi]. got Hs. destruct (Hst _ _ Hs) as [Is _].
+      apply safe_last; [apply sup_at_safe; assumption | fin].
+    - (* SupSub *)
+      destruct Ht as (s & Hs & Hi). got Hs. destruct (Hst _ _ Hs) as [Is _].
+      apply safe_last; [apply sup_sub_safe; assumption | fin].
+    - (* SupFront *)
+      destruct Ht as [s Hs]. got Hs. destruct (Hst _ _ Hs) as [Is _].
+      apply safe_last; [apply sup_front_safe; exact Is | fin].
+    - (* SupBack *)
+      destruct Ht as [s Hs]. got Hs. destruct (Hst _ _ Hs) as [Is _].
+      apply safe_last; [apply sup_back_safe; exact Is | fin].
+    - (* SupIter *) destruct Ht as [s Hs]. got Hs. exact I.
+    - (* SupEq *) destruct Ht as [[s Hs] [t Ht']]. got Hs. got Ht'. exact I.
+    - (* SupSameGrid *) destruct Ht as [[s Hs] [t Ht']]. got Hs. got Ht'. exact I.
+    - (* SupIsEmpty *) destruct Ht as [s Hs]. got Hs. exact I.
+    - (* SupContains *) destruct Ht as [s Hs]. got Hs. exact I.
+    - (* SupGrid *) destruct Ht as [s Hs]. got Hs. exact I.
+    - (* SplNew *)
+      destruct Ht as ([s Hs] & Hc & _). got Hs. destruct (Hst _ _ Hs) as [Is Gs].
+      assert (forallb (fun c => (length c =? ord + 1)%nat) coefs = true) as ->.
+      { apply forallb_forall. intros c Hin. apply Nat.eqb_eq.
+        rewrite Forall_forall in Hc. apply Hc. exact Hin. }
+      cbn [negb].
+      apply safe_last; [apply (okP_weaken _ _ (spl_ctor_okP ord s coefs Is Gs Hc)) | fin].
+    - (* SplEmpty *)
+      destruct Ht as [gr Hg]. got Hg. pose proof (Hst _ _ Hg) as Ig.
+      apply safe_last; [apply (okP_weaken _ _ (spl_empty_okP ord gr Ig)) | fin].
+    - (* SplCopy *)
+      destruct Ht as (s & Ha & Hd). got Ha. rewrite copy_check by exact Hd. exact I.
+    - (* SplMove *) destruct Ht as [s Hs]. got Hs. exact I.
+    - (* SplMoveAssign *)
+      destruct Ht as (t & s & Hd & Ha & Ho). got Hd. got Ha. rewrite Ho, Nat.eqb_refl. exact I.
+    - (* SplAssignUp *)
+      destruct Ht as (t & s & Hd & Ha & Ho). got Hd. got Ha. pose proof (Hst _ _ Ha) as Is.
+      destruct (Nat.ltb_spec (sord s) (sord t)) as [_|Hge]; [|lia]. cbn [negb].
+      apply safe_last;
+        [apply (okP_weaken _ _ (spl_assign_up_okP (sord t) s Is ltac:(lia))) | fin].
+    - (* SplScale *) destruct Ht as [s Hs]. got Hs. exact I.
+    - (* SplScaleL *) destruct Ht as [s Hs]. got Hs. exact I.
+    - (* SplDiv *)
+      destruct Ht as [[s Hs] Hc]. got Hs. pose proof (Hst _ _ Hs) as Is.
+      apply safe_last; [apply (okP_weaken _ _ (spl_div_okP s c Is Hc)) | fin].
+    - (* SplNeg *) destruct Ht as [s Hs]. got Hs. exact I.
+    - (* SplIMul *) destruct Ht as [s Hs]. got Hs. exact I.
+    - (* SplIDiv *)
+      destruct Ht as [[s Hs] Hc]. got Hs. pose proof (Hst _ _ Hs) as Is.
+      apply safe_last; [apply (okP_weaken _ _ (spl_div_okP s c Is Hc)) | fin].
+    - (* SplAdd *)
+      destruct Ht as [[s Hs] [t Ht']]. got Hs. got Ht'.
+      pose proof (Hst _ _ Hs) as Is. pose proof (Hst _ _ Ht') as It.
+      apply safe_last; [apply (okP_weaken _ _ (spl_add_okP s t Is It)) | fin].
+    - (* SplSub *)
+      destruct Ht as [[s Hs] [t Ht']]. got Hs. got Ht'.
+      pose proof (Hst _ _ Hs) as Is. pose proof (Hst _ _ Ht') as It.
+      apply safe_last; [apply (okP_weaken _ _ (spl_sub_okP s t Is It)) | fin].
+    - (* SplMul *)
+      destruct Ht as [[s Hs] [t Ht']]. got Hs. got Ht'.
+      pose proof (Hst _ _ Hs) as Is. pose proof (Hst _ _ Ht') as It.
+      apply safe_last; [apply (okP_weaken _ _ (spl_mul_okP s t Is It)) | fin].
+    - (* SplIAdd *)
+      destruct Ht as (s & t & Hs & Ht' & Ho). got Hs. got Ht'.
+      pose proof (Hst _ _ Hs) as Is. pose proof (Hst _ _ Ht') as It.
+      apply safe_last; [apply (okP_weaken _ _ (spl_iadd_okP s t Is It Ho)) | fin].
+    - (* SplISub *)
+      destruct Ht as (s & t & Hs & Ht' & Ho). got Hs. got Ht'.
+      pose proof (Hst _ _ Hs) as Is. pose proof (Hst _ _ Ht') as It.
+      apply safe_last; [apply (okP_weaken _ _ (spl_isub_okP s t Is It Ho)) | fin].
+    - (* SplLinComb *)
+      destruct Ht as ((l & Hl & Ho) & _ & _).
+      pose proof (omapM_get_spl_total st ss l Hl) as El. rewrite El. cbn [bind].
+      rewrite order_check by exact Ho. cbn [bind].
+      apply safe_last; [|fin].
+      apply (okP_weaken _ _ (lin_comb_okP cs l (omapM_get_spl_inv st ss l Hst El)
+               ltac:(intros s0 s H0 Hin; apply Ho; [exact Hin | eapply nth_error_In; exact H0]))).
+    - (* SplEval *)
+      destruct Ht as [s Hs]. got Hs. pose proof (Hst _ _ Hs) as Is.
+      apply safe_last; [apply spl_eval_safe; exact Is | fin].
+    - (* SplFront *)
+      destruct Ht as [s Hs]. got Hs. destruct (Hst _ _ Hs) as [Is _]. unfold spl_front.
+      apply safe_last; [apply sup_front_safe; exact Is | fin].
+    - (* SplBack *)
+      destruct Ht as [s Hs]. got Hs. destruct (Hst _ _ Hs) as [Is _]. unfold spl_back.
+      apply safe_last; [apply sup_back_safe; exact Is | fin].
+    - (* SplIsZero *) destruct Ht as [s Hs]. got Hs. exact I.
+    - (* SplOverlap *)
+      destruct Ht as [[s Hs] [t Ht']]. got Hs. got Ht'.
+      pose proof (Hst _ _ Hs) as Is. pose proof (Hst _ _ Ht') as It.
+      apply safe_last; [apply check_overlap_safe; assumption | fin].
+    - (* SplEq *)
+      destruct Ht as (s & t & Hs & Ht' & Ho). got Hs. got Ht'. rewrite Ho, Nat.eqb_refl. exact I.
+    - (* SplSupport *) destruct Ht as [s Hs]. got Hs. exact I.
+    - (* Apply *)
+      destruct Ht as [[Sl Dv] [s Hs]]. rewrite Dv. cbn [negb].
+      destruct (resolve_total st e Sl) as [ex Hex]. rewrite Hex. cbn [bind]. got Hs.
+      pose proof (Hst _ _ Hs) as Is.
+      apply safe_last; [|fin].
+      apply (okP_weaken _ _ (apply_okP (elab ex) s (elab_inv ex (resolve_inv st e Hst ex Hex)) Is)).
+    - (* Transform *)
+      destruct Ht as ([Sl Dv] & Hne & _ & gr & Hg & Hk). rewrite Dv. cbn [negb].
+      destruct (resolve_total st e Sl) as [ex Hex]. rewrite Hex. cbn [bind]. got Hg.
+      pose proof (Hst _ _ Hg) as Ig.
+      apply safe_last; [|fin].
+      apply (okP_weaken _ _ (tr_shape_okP _ _ _
+               (transform_total_shape (elab ex) (elab_inv ex (resolve_inv st e Hst ex Hex))
+                  input gr k (proj1 (proj2 Ig)) Hk Hne))).
+    - (* Bilin *)
+      destruct Ht as ([S1 D1] & [S2 D2] & [s Hs] & [t Ht']). rewrite D1, D2. cbn [andb negb].
+      destruct (resolve_total st e1 S1) as [x1 Hx1]. rewrite Hx1. cbn [bind].
+      destruct (resolve_total st e2 S2) as [x2 Hx2]. rewrite Hx2. cbn [bind].
+      got Hs. got Ht'. pose proof (Hst _ _ Hs) as Is. pose proof (Hst _ _ Ht') as It.
+      apply safe_last; [|fin].
+      apply bilinear_safe; try assumption;
+        apply elab_inv; eapply resolve_inv; eassumption.
+    - (* Lin *)
+      destruct Ht as [[Sl Dv] [s Hs]]. rewrite Dv. cbn [negb].
+      destruct (resolve_total st e Sl) as [ex Hex]. rewrite Hex. cbn [bind]. got Hs.
+      pose proof (Hst _ _ Hs) as Is.
+      apply safe_last; [|fin].
+      apply linear_safe; [|exact Is]. apply elab_inv. eapply resolve_inv; eassumption.
+    - (* Gen1 *)
+      apply safe_last; [apply (okP_weaken _ _ (generate_bsplines_okP order knots Ht)) | fin].
+    - (* Gen2 *)
+      destruct Ht as [[gr Hg] Hl]. got Hg.
+      rewrite <- (bind_assoc (gen_ctor2 knots gr) (fun gn => generate gn order)).
+      apply safe_last; [apply (okP_weaken _ _ (generate2_okP order knots gr Hl)) | fin].
+    - (* Interp *)
+      destruct Ht as ([s Hs] & Ho & Hb & _). got Hs. destruct (Hst _ _ Hs) as [Is Gs].
+      destruct (Nat.eqb_spec order 0) as [E0|_]; [lia|]. rewrite Hb, Nat.eqb_refl. cbn [negb orb].
+      eapply okP_bind; [apply (interp_system_okP order s y bs Is Gs Ho Hb)|].
+      intros sys _ [H2 Ls].
+      apply safe_last; [apply (okP_weaken _ _ (interp_build_inv order s sys Is Gs H2 Ls)) | fin].
+    - (* InterpDefault *)
+      destruct Ht as ([s Hs] & Ho & _). got Hs. destruct (Hst _ _ Hs) as [Is Gs].
+      destruct (Nat.eqb_spec order 0) as [E0|_]; [lia|].
+      destruct (default_boundaries_ok (F:=F) order Ho) as [_ Hbl].
+      eapply okP_bind; [apply (interp_system_okP order s y _ Is Gs Ho Hbl)|].
+      intros sys _ [H2 Ls].
+      apply safe_last; [apply (okP_weaken _ _ (interp_build_inv order s sys Is Gs H2 Ls)) | fin].
+    - (* Show *)
+      destruct (lookup st a); exact I.
+  Qed.
+
+  (* C09 *)
+  Theorem no_ub (st : state F) o : StInv st -> op_typed st o ->
+    match snd (step solver st o) with
+    | UB _ => False
+    | Throw BadOptionalAccess | Throw StdOutOfRange => False
+    | _ => True
+    end.
+  Proof.
+    intros Hst Ht. pose proof (eval_safe st o Hst Ht) as H. unfold step.
+    destruct (eval_op solver st o) as [[ws r]|e|k]; cbn [snd okP] in *;
+      [exact I | destruct e; exact H | exact H].
   Qed.
 
 End PoolFacts.
